@@ -36,22 +36,22 @@ BB_NOTE = ("Trusted base: the session driver (history recorded at the client bou
 
 CHECKS.update({
  "C03": dict(cat="exploration", tech="offline checkers over recorded UCI transcripts and the hooked binary's event log, under parallel / pinned / failpoint-delayed schedules",
-    text="Thousands of go commands on the real binary (grid of clock values incl. absent, zero, negative and huge; chains of go without position) are checked for exactly one well-formed legal bestmove against the oracle-tracked position; the hooked build's internal event log is checked for FIFO/exactly-once hand-off between search_send and io_recv and 'printed move = last received' under seeded failpoint delays; the evidence lists the distinct interleaving signatures actually observed.",
+    text="Thousands of go commands on the real binary (grid of clock values incl. absent, zero, negative and huge; chains of go without position) are checked for exactly one well-formed legal bestmove against the oracle-tracked position; the hooked build's internal event log is checked for FIFO/exactly-once hand-off between search_send and io_recv and 'printed move = last received' under seeded failpoint delays; the evidence lists the distinct interleaving signatures actually observed. Pipelined sessions (the whole script written without waiting for replies: one write, per line, or pieces that cut lines in two; ended by nothing, quit or end of input) are checked offline for the order of bestmove/readyok lines and the legality of every answer.",
     ref="DESIGN.md §7 C03, §12.2", note=BB_NOTE),
  "C07": dict(cat="fault_enumeration", tech="fault enumeration over the clock-query index at which the allowance expires (virtual clock hook), prefix-of-unaborted-run oracle; failpoint schedules for the two-thread clause",
     text="For each root and iteration limit the unaborted run is recorded, then the search is re-run with the allowance expiring at every (small trees) or a structured sample of clock-query indices k; each run must hand back only legal successors, report a sequence that is a prefix of the unaborted one, leave the repetition record unchanged and not panic. The schedule clause (send after the receiver is dropped) is driven on the hooked binary with delayed sends and read from its event log.",
     ref="DESIGN.md §7 C07"),
  "C08": dict(cat="exploration", tech="bounded-progress monitor over UCI sessions with terminal and non-terminal roots; hang verdict from /proc (search thread gone, no answer)",
-    text="Alternating terminal (checkmate/stalemate) and non-terminal roots under clock settings with planned slice <= 200 ms; a null move is required on terminal roots, a legal move otherwise, isready must be served afterwards. Liveness is restated as a bound (slice + 300 ms, solo-confirmed) and hangs are decided logically.",
+    text="Alternating terminal (checkmate/stalemate) and non-terminal roots under clock settings with planned slice <= 200 ms; a null move is required on terminal roots, a legal move otherwise, isready must be served afterwards. Clock settings include C03's wide grid (negative, zero, huge and out-of-range integers, unknown tokens). Liveness is restated as a bound (slice + 300 ms, solo-confirmed) and hangs are decided logically.",
     ref="DESIGN.md §7 C08", note=BB_NOTE),
  "C09": dict(cat="exploration", tech="reference-policy monitor (upper bounds from the statement) on calculate_time_slice over an edge-value grid + random points; measured latency vs plan on the real binary",
     text="The real calculate_time_slice and go parser are evaluated on the full cross product of 24 edge values for clock and increment x 9 movestogo values x both colours plus ~10^6 log-uniform random points against bounds written from the statement only; the real binary's go->bestmove delay is compared with the plan (exact lower bound, solo-confirmed upper bound).",
     ref="DESIGN.md §7 C09", note=BB_NOTE),
  "C10": dict(cat="exploration", tech="reference-model monitor of the repetition record (oracle occurrence counts) + score>=0 invariant when a repetition move is available; hooked binary for the real handler incl. clear()",
-    text="Histories with 1-3 repetition sites of 1..99 cycles are loaded through the real position handler function and the record compared with oracle counts; sessions of 2-10 position commands on the hooked binary check the record after the real clear(); searches from materially lost roots with a move into a position that occurred 2,3,4,5 times must end every completed depth with a non-negative score (in-process under the virtual clock and on the real binary).",
+    text="Histories with 1-3 repetition sites of 1..99 cycles are loaded through the real position handler function and the record compared with oracle counts; sessions of 2-10 position commands on the hooked binary check the record after the real clear(); searches from materially lost roots with a move into a position that occurred 2,3,4,5 times must end every completed depth with a non-negative score (in-process under the virtual clock and on the real binary, there also for a second go without a new position after a forced first answer).",
     ref="DESIGN.md §7 C10"),
- "C11": dict(cat="exploration", tech="differential monitor of mate claims and played moves against a full-width mate solver",
-    text="Real searches (all iterations up to a limit complete under the virtual clock) on endgame families and positions 1-5 plies before mate; the oracle's solver judges mate-in-1 played, avoidable mate avoided after iterations 2-3, every 'mate N' (N<=3) true, 'mate -N' true on the last line of completed depths, stalemating moves never reported as mate.",
+ "C11": dict(cat="exploration", tech="differential monitor of mate claims and played moves against a full-width mate solver (in-process under the virtual clock, and the move played by the real binary under 1-20 ms slices)",
+    text="Real searches (all iterations up to a limit complete under the virtual clock) on endgame families, cornered-king sparse-material roots and positions 1-5 plies before mate; the oracle's solver judges mate-in-1 played, avoidable mate avoided after iterations 2-3, every 'mate N' (N<=3) true, 'mate -N' true on the last line of completed depths, stalemating moves never reported as mate. Black box: the move the real binary plays under 1-20 ms slices, judged only when an info line printed before the allowance ended proves that the first (second) iteration had finished.",
     ref="DESIGN.md §7 C11"),
  "C12": dict(cat="exploration", tech="differential monitor against a heuristic-free alpha-beta reference over the engine's own evaluation and move generation",
     text="For depths 1-3 the reported score and the selected move's value are compared with the exact minimax value computed by an independent, heuristic-free search that shares only the engine's leaf primitives; the reference is cross-checked against un-pruned minimax in every run.",
@@ -66,7 +66,7 @@ CHECKS.update({
     text="Probes (zero-slice and timed) issued after generated prefixes of up to 60 commands, including the probed game itself so that a leaked repetition record doubles counts, are compared with fresh-engine references.",
     ref="DESIGN.md §7 C16", note=BB_NOTE),
  "C17": dict(cat="exploration", tech="differential monitor of scripts with/without garbage lines; lifecycle checks via /proc (exit, CPU time after EOF)",
-    text="Scripts with unknown lines inserted at random points must give the same answers as without them, isready is always answered, quit and EOF end the process promptly and it does not spin (process CPU time vs wall time).",
+    text="Scripts with unknown lines inserted at random points must give the same answers as without them, isready is always answered, quit and EOF end the process promptly and it does not spin (process CPU time vs wall time). Scripts switch the engine's log file on in half of the sessions, carry long multi-byte and non-UTF-8 lines, and are also written pipelined (no waiting for replies) and ended by quit or end of input.",
     ref="DESIGN.md §7 C17", note=BB_NOTE),
  "C18": dict(cat="exploration", tech="trace-specification monitor (strict grammar + bounds + monotonicity) over info lines from clock-cut in-process searches and real transcripts",
     text="Every info line produced while the virtual clock cuts the search at enumerated points, and every line of timed go commands on the real binary, is parsed against the strict grammar and checked for depth monotonicity, score bounds (incl. the value implied by mate N), first-PV-move legality and strictly increasing scores within a depth.",
@@ -93,7 +93,7 @@ manifest = {
   "engines": [
     {"name": "wmon", "path": "harness/", "serves_properties": sorted(CHECKS.keys()),
      "kind_free_text": "Rust monitor harness compiled together with /repo/src/*.rs (cfg walleye_verif): independent rules oracle, workload generators, per-property monitors, virtual clock driver, evidence/replay writers"},
-    {"name": "bb", "path": "harness/src/bb.rs", "serves_properties": ["C03", "C07", "C08", "C09", "C10", "C15", "C16", "C17", "C18"],
+    {"name": "bb", "path": "harness/src/bb.rs", "serves_properties": ["C03", "C07", "C08", "C09", "C10", "C11", "C15", "C16", "C17", "C18"],
      "kind_free_text": "black-box session driver over two builds of /repo itself (.target/bb-plain guard off, .target/bb-hooked with --cfg walleye_verif: event log + failpoints), transcript and event-log checkers"},
   ],
   "checks": [],
